@@ -865,6 +865,7 @@ Proof.
   - apply w_die_count.
   - apply w_exit_count.
   - transitivity (pc j (stop_actor a w)); [reflexivity|apply stop_actor_count].
+  - reflexivity.
   - apply w_close_count.
   - apply w_closed_count.
   - apply finalize_count.
